@@ -15,7 +15,7 @@ def _inst_cases(C, tier, seed):
         res = os.path.join(work, key + '.rc')
         if os.path.exists(res):
             return u, int(open(res).read().split('\n')[0])
-        f = os.path.join(work, key + '.cpp')
+        f = os.path.join(work, key + '.%d.cpp' % os.getpid())
         open(f, 'w').write(u['src'])
         if u.get('link'):
             cmd = [C.CXX] + C.CXXFLAGS + ['-O0', f] + ([lib] if lib else []) + C.LDLIBS + ['-o', f + '.out']
@@ -26,7 +26,8 @@ def _inst_cases(C, tier, seed):
             os.remove(f + '.out')
         errs = [l for l in p.stdout.split('\n') if 'error' in l or 'undefined reference' in l][:3]
         open(res, 'w').write('%d\n%s' % (1 if p.returncode else 0, '\n'.join(errs)))
-        os.remove(f)
+        if os.path.exists(f):
+            os.remove(f)
         return u, 1 if p.returncode else 0
     out = []
     with ThreadPoolExecutor(max_workers=C.NPROC) as ex:
@@ -68,7 +69,7 @@ def _all_cases(C, tier, seed):
 SPEC = {
     'id': 'C10',
     'lean_modules': ['AITB.Props.C10'],
-    'theorems': ['AITB.Cursor.matchLoop_total', 'AITB.Cursor.match_no_oob', 'AITB.Cursor.matchOrig_oob_witness'],
+    'theorems': ['AITB.Cursor.matchLoop_total', 'AITB.Cursor.match_no_oob', 'AITB.Cursor.matchOrig_oob_witness', 'AITB.Cursor.uses_subset_provides'],
     'harness': 'harness/c10.cpp',
     'extra_cases': _all_cases,
     'level': 'exploration',
